@@ -38,7 +38,7 @@ ASSUMPTIONS = [
 MINIMUMS = {
     'quick': {'evaluations': 1200, 'objects_with>=3_paths': 150, 'cyclic_cases': 80, 'get_all_paths_checked': 5000, 'rebuilds_checked': 3000,
               'paths_checked': 30000, 'tempbox_structures': 100, 'positional_buildables': 100},
-    'thorough': {'evaluations': 50000, 'objects_with>=3_paths': 5000, 'cyclic_cases': 3000},
+    'thorough': {'evaluations': 40000, 'objects_with>=3_paths': 5000, 'cyclic_cases': 3000},
 }
 
 FNS = [kinds.node, kinds.node2, kinds.posnode, kinds.two, kinds.PosInit, sigs.g_ab_c_va,
